@@ -147,6 +147,7 @@ type task struct {
 	waitDir   int            // ... and the direction (1 receive, 2 send)
 	sel             []SelCase // tsPolling in a select: its cases
 	parkAfterSelect bool      // after the select has fired this task parks as runnable (it was the sender of a rendezvous)
+	condWait  bool           // parked in a sync.Cond wait until signalled
 	callStart uint64         // yield count at the start of the current library call
 	mapRng    uint64         // stream that permutes map iteration orders (MapKeys)
 	meet      bool           // the partner of an unbuffered rendezvous has arrived: complete it with a blocking operation
@@ -616,6 +617,10 @@ func describeDeadlock() string {
 		}
 		switch tasks[i].state {
 		case tsBlocked:
+			if tasks[i].blockedOn < 0 {
+				s += " task " + itoa(i) + " waits on a sync.Cond;"
+				continue
+			}
 			o := &objs[tasks[i].blockedOn]
 			s += " task " + itoa(i) + " waits for " + objKindNames[o.kind] + "#" + itoa(tasks[i].blockedOn) + " held by task " + itoa(o.owner) + ";"
 		case tsDone:
